@@ -634,6 +634,7 @@ def run(ctx):
 
     # ---- correspondence: real handlers vs model, response by response
     model = c.run_driver(ctx, "model", ops)
+    impl = c.settle(ctx, "2FA handlers vs KM.Session.step", ops, impl, model, lambda: harness(ctx, ops, tag="h2-"))
     dis = c.diff_streams(ctx, "2FA handlers vs KM.Session.step (status, cookies, events)", ops, impl, model)
 
     # ---- judge the implementation's own answers
